@@ -53,14 +53,17 @@ def site_opcode_check(repo, chk, s, rule):
             else:
                 n_in, out = ISA[v]
                 if s.n_inputs is None:
-                    bad.append(f"operand list of {v!r} is not a literal list")
+                    # a list that is put together at run time: its length is not decided here, and that is not a finding
+                    chk.unresolved(rule, f"{key} [opcode {v!r}]", f"the operand list of {v!r} is not a literal list: the number of operands was not determined", s.where())
+                    any_bad = True
+                    continue
                 elif s.n_inputs != n_in:
                     bad.append(f"{v!r} takes {n_in} input operand(s), site passes {s.n_inputs}")
                 if s.has_output != out:
                     bad.append(f"{v!r} {'writes' if out else 'does not write'} a register, site {'has' if s.has_output else 'has no'} output")
         if bad:
             any_bad = True
-            chk.bad(rule, f"{key} [opcode {v!r}]", "; ".join(bad), facts, s.where())
+            chk.bad(rule, f"{s.stable_key()} [opcode {v!r}]", "; ".join(bad), facts, s.where())
     if not any_bad:
         chk.ok(rule, key, facts, vacuous=(judged == 0))
     return "ok"
@@ -448,7 +451,8 @@ def r09d(repo: Repo, chk: Check):
             continue
         n_reg += 1
         ruled_out = False
-        for t, pol in conds:
+        from ..cfg import decompose
+        for t, pol in [a_ for t0, p0 in conds for a_ in decompose(t0, p0)]:
             if not pol and isinstance(t, ast.Call) and norm(t.func) == "isinstance" and len(t.args) == 2 and norm(t.args[0]) == norm(v):
                 kinds = norm(t.args[1])
                 if "float" in kinds or "Number" in kinds or "Real" in kinds:
